@@ -5,6 +5,8 @@ import (
 	"math"
 	"testing"
 
+	"github.com/flowmatters/openwater-core/data"
+	"github.com/flowmatters/openwater-core/sim"
 	"pgregory.net/rapid"
 	"verif/harness/pbt"
 	"verif/harness/simref"
@@ -15,6 +17,9 @@ func TestMain(m *testing.M) { pbt.Main(m, "C06") }
 type Case struct {
 	A      simref.CellCase
 	Splits []int // segment boundaries, strictly increasing, inside (0,T)
+	// Mates: other cells of the same model run in the same vectorised Run calls (one shared state
+	// array, sized by the model for the widest cell), as a driver hot-starting a whole batch does.
+	Mates []simref.CellCase `json:",omitempty"`
 }
 
 func genFor(model string) func(t *rapid.T) Case {
@@ -25,6 +30,12 @@ func genFor(model string) func(t *rapid.T) Case {
 		}
 		c := Case{A: simref.DrawCellCase(t, name, 2, 80)}
 		T := c.A.T()
+		if rapid.IntRange(0, 2).Draw(t, "batch") == 0 {
+			for i := rapid.IntRange(1, 3).Draw(t, "mates"); i > 0; i-- {
+				cell := simref.DrawCell(t, name)
+				c.Mates = append(c.Mates, simref.CellCase{Model: name, Cell: cell, Inputs: simref.DrawInputs(t, name, cell, T)})
+			}
+		}
 		k := rapid.IntRange(1, 4).Draw(t, "nsplits")
 		seen := map[int]bool{}
 		for i := 0; i < k; i++ {
@@ -195,8 +206,88 @@ func check(c Case) (r pbt.Result) {
 			return
 		}
 	}
+	if len(c.Mates) > 0 && r.Fail == "" {
+		checkBatch(c, &r, same)
+	}
 	_ = fmt.Sprint
 	return
+}
+
+// checkBatch: the same continuity for a whole batch of cells sharing one state array whose rows are
+// as wide as the widest cell needs (InitialiseStates(N) of the model itself).
+func checkBatch(c Case, r *pbt.Result, same func(a, b, tol float64) bool) {
+	name := c.A.Model
+	cellsCases := append([]simref.CellCase{c.A}, c.Mates...)
+	N, T := len(cellsCases), c.A.T()
+	cells := make([]simref.Cell, N)
+	for i := range cells {
+		cells[i] = cellsCases[i].Cell
+	}
+	r.Label("batch-of-cells")
+	run := func(m sim.TimeSteppingModel, st data.ND2Float64, a, b int) [][][]float64 {
+		desc := m.Description()
+		blocks := make([][][]float64, N)
+		for i := range blocks {
+			blocks[i] = make([][]float64, len(desc.Inputs))
+			for k := range blocks[i] {
+				blocks[i][k] = cellsCases[i].Inputs[k][a:b]
+			}
+		}
+		in := simref.Inputs3(blocks, len(desc.Inputs), b-a)
+		out := sim.InitialiseOutputs(m, b-a, N)
+		m.Run(in, st, out)
+		res := make([][][]float64, N)
+		for i := range res {
+			res[i] = make([][]float64, len(desc.Outputs))
+			for o := range res[i] {
+				for t := 0; t < b-a; t++ {
+					res[i][o] = append(res[i][o], out.Get3(i, o, t))
+				}
+			}
+		}
+		return res
+	}
+	mk := func() (sim.TimeSteppingModel, data.ND2Float64) {
+		m := simref.New(name)
+		simref.Prepare(m, simref.ParamMatrix(m.Description(), cells))
+		return m, m.InitialiseStates(N)
+	}
+	desc := simref.New(name).Description()
+	m1, st1 := mk()
+	whole := run(m1, st1, 0, T)
+	m2, st2 := mk()
+	bounds := append(append([]int{0}, c.Splits...), T)
+	seg := make([][][]float64, N)
+	for i := range seg {
+		seg[i] = make([][]float64, len(desc.Outputs))
+	}
+	for s := 0; s+1 < len(bounds); s++ {
+		part := run(m2, st2, bounds[s], bounds[s+1])
+		for i := range seg {
+			for o := range seg[i] {
+				seg[i][o] = append(seg[i][o], part[i][o]...)
+			}
+		}
+	}
+	if name == "Sacramento" || name == "InstreamDissolvedNutrientDecay" || name == "StorageRouting" {
+		return // the single-cell part above asserts these with their findings / solver tolerance
+	}
+	for i := 0; i < N; i++ {
+		for o := range whole[i] {
+			for t := 0; t < T; t++ {
+				if !same(whole[i][o][t], seg[i][o][t], 0) {
+					r.Failf("%s batch of %d cells, splits %v: cell %d output %s[t=%d] = %v uninterrupted, %v split (state array %d wide)", name, N, c.Splits, i, desc.Outputs[o], t, whole[i][o][t], seg[i][o][t], st1.Len(1))
+					return
+				}
+			}
+		}
+		for j := 0; j < st1.Len(1); j++ {
+			if !same(st1.Get2(i, j), st2.Get2(i, j), 0) {
+				r.Failf("%s batch of %d cells, splits %v: cell %d final state %d = %v uninterrupted, %v split", name, N, c.Splits, i, j, st1.Get2(i, j), st2.Get2(i, j))
+				return
+			}
+		}
+	}
 }
 
 func TestHotStartContinuity(t *testing.T) { pbt.Run(t, genFor(""), check) }
